@@ -22,14 +22,19 @@ FUNCTIONS = [
     "Converter.standardize_curie", "Converter.standardize_uri", "Converter.compress_strict", "Converter.expand_strict",
     "_get_shacl_line", "_record_to_dict", "_get_expanded_term", "_get_jsonld_context",
     "Converter._index", "Converter._merge",
+    "reconciliation:_get_curie_preferred_or_synonym", "reconciliation:_get_uri_preferred_or_synonym",
+    "reconciliation:rewire", "reconciliation:remap_uri_prefixes",
 ]
-SHORT = [q.rpartition(".")[2] for q in FUNCTIONS]
+SHORT = [q.rpartition(":")[2].rpartition(".")[2] for q in FUNCTIONS]
+MODULE = {s_: (q.partition(":")[0] if ":" in q else "api") for q, s_ in zip(FUNCTIONS, SHORT)}
+IS_METHOD = {s_: q.rpartition(":")[2].startswith("Converter.") for q, s_ in zip(FUNCTIONS, SHORT)}
 INDEX = {n: i for i, n in enumerate(SHORT)}
 
 ERR = {
     "NoCURIEDelimiterError": "ENoCURIEDelimiter", "ExpansionError": "EExpansion", "CompressionError": "ECompression",
     "PrefixStandardizationError": "EPrefixStd", "IdentifierStandardizationError": "EIdentifierStd",
     "CURIEStandardizationError": "ECURIEStd", "URIStandardizationError": "EURIStd",
+    "TransitiveError": "ETransitive",
     "KeyError": "EKeyError", "ValueError": "EValueError", "TypeError": "ETypeError", "IndexError": "EIndexError",
 }
 SDICT = {"prefix_map": "DPrefixMap", "synonym_to_prefix": "DSynonymToPrefix", "reverse_prefix_map": "DReversePrefixMap",
@@ -173,6 +178,8 @@ class FnTranslator:
             v, s = n.value, n.slice
             if isinstance(v, ast.Attribute) and self.is_self(v.value) and v.attr in SDICT and not isinstance(s, ast.Slice):
                 return f"(EDictIdx {SDICT[v.attr]} {self.exp(s)})"
+            if isinstance(v, ast.Name) and v.id in self.vars and not isinstance(s, ast.Slice):
+                return f"(ESubscr {self.exp(v)} {self.exp(s)})"
             if isinstance(s, ast.Slice) and s.upper is None and s.step is None and isinstance(s.lower, ast.Call) \
                     and isinstance(s.lower.func, ast.Name) and s.lower.func.id == "len" and len(s.lower.args) == 1 and not s.lower.keywords:
                 return f"(ESkipLen {self.exp(v)} {self.exp(s.lower.args[0])})"
@@ -255,24 +262,39 @@ class FnTranslator:
                 raise Unsupported(f"missing argument {p} for {callee}")
         return self.exps(items)
 
+    def set_update(self, n: ast.expr):
+        """set(L).union({A}).difference({B, ...})  (the argument of sorted): None if n has another shape"""
+        def meth(x, name):
+            return isinstance(x, ast.Call) and isinstance(x.func, ast.Attribute) and x.func.attr == name and len(x.args) == 1 and not x.keywords
+        if not meth(n, "difference") or not meth(n.func.value, "union"):
+            return None
+        rm, un, base = n.args[0], n.func.value.args[0], n.func.value.func.value
+        if not (isinstance(rm, ast.Set) and isinstance(un, ast.Set) and len(un.elts) == 1 and isinstance(base, ast.Call)
+                and isinstance(base.func, ast.Name) and base.func.id == "set" and len(base.args) == 1 and not base.keywords):
+            return None
+        return f"(ESetUpd {self.exp(base.args[0])} {self.exp(un.elts[0])} {self.exps([self.exp(e) for e in rm.elts])})"
+
     def call(self, n: ast.Call) -> str:
         f = n.func
         if isinstance(f, ast.Name):
-            if f.id in INDEX and not FUNCTIONS[INDEX[f.id]].startswith("Converter."):
+            if f.id in INDEX and not IS_METHOD[f.id]:
                 if self.sigs[f.id].self_name is not None:
                     if not (n.args and self.is_self(n.args[0])):
                         raise Unsupported(f"{f.id} called on another converter")
                     n = ast.Call(func=n.func, args=n.args[1:], keywords=n.keywords)
                 return f"(ECall f_{f.id} {self.call_args(f.id, n)})"
             if f.id == "sorted" and len(n.args) == 1 and not n.keywords:
-                return f"(ESorted {self.exp(n.args[0])})"
+                upd = self.set_update(n.args[0])
+                return upd if upd is not None else f"(ESorted {self.exp(n.args[0])})"
+            if f.id == "Converter" and len(n.args) == 1 and not n.keywords and not isinstance(n.args[0], ast.Starred):
+                return f"(ENewConv {self.exp(n.args[0])})"
             if f.id == "ReferenceTuple" and len(n.args) == 2 and not n.keywords and not any(isinstance(a, ast.Starred) for a in n.args):
                 return f"(ETuple {self.exps([self.exp(a) for a in n.args])})"
             raise Unsupported(f"call of {f.id}")
         if isinstance(f, ast.Attribute):
             recv = f.value
             if self.is_self(recv):
-                if f.attr in INDEX and FUNCTIONS[INDEX[f.attr]].startswith("Converter."):
+                if f.attr in INDEX and IS_METHOD[f.attr]:
                     return f"(ECall f_{f.attr} {self.call_args(f.attr, n)})"
                 raise Unsupported(f"self.{f.attr}(...)")
             if isinstance(recv, ast.Attribute) and self.is_self(recv.value):
@@ -284,6 +306,11 @@ class FnTranslator:
             if isinstance(recv, ast.Name) and recv.id in ("itt", "itertools") and f.attr == "chain" and not n.keywords \
                     and not any(isinstance(a, ast.Starred) for a in n.args):
                 return f"(EChain {self.exps([self.exp(a) for a in n.args])})"
+            if f.attr == "intersection" and len(n.args) == 1 and not n.keywords and isinstance(recv, ast.Call) and isinstance(recv.func, ast.Name) \
+                    and recv.func.id == "set" and len(recv.args) == 1 and isinstance(recv.args[0], ast.Name) \
+                    and isinstance(n.args[0], ast.Call) and isinstance(n.args[0].func, ast.Attribute) and n.args[0].func.attr == "values" \
+                    and not n.args[0].args and isinstance(n.args[0].func.value, ast.Name) and n.args[0].func.value.id == recv.args[0].id:
+                return f"(EKeysInterValues {self.exp(recv.args[0])})"
             if f.attr == "partition" and len(n.args) == 1 and not n.keywords:
                 return f"(EPartition {self.exp(recv)} {self.exp(n.args[0])})"
             if f.attr == "replace" and len(n.args) == 2 and not n.keywords and all(isinstance(a, ast.Constant) and isinstance(a.value, str) for a in n.args) \
@@ -316,6 +343,8 @@ class FnTranslator:
                 f = v.func
                 if isinstance(f.value, ast.Name) and f.value.id == "warnings" and f.attr == "warn":
                     return "SPass"
+                if isinstance(f.value, ast.Name) and f.value.id == "logger" and f.attr in ("debug", "info", "warning"):
+                    return "SPass"
                 if isinstance(f.value, ast.Name) and f.value.id in self.vars and f.attr == "append" and len(v.args) == 1 and not v.keywords:
                     return f"(SAppend {self.var(f.value.id)} {self.exp(v.args[0])})"
                 if isinstance(f.value, ast.Attribute) and isinstance(f.value.value, ast.Name) and f.value.value.id in self.vars \
@@ -330,6 +359,16 @@ class FnTranslator:
             return "SPass"
         if isinstance(s, ast.Assign) and len(s.targets) == 1:
             t = s.targets[0]
+            if isinstance(t, ast.Name) and t.id == self.sig.self_name:
+                # converter = _copy_converter(converter): a deep copy -- the same value; what it protects (the caller's records
+                # against the writes below) is property C10's business and is checked there on the running code
+                v = s.value
+                if isinstance(v, ast.Call) and isinstance(v.func, ast.Name) and v.func.id == "_copy_converter" and len(v.args) == 1 \
+                        and not v.keywords and self.is_self(v.args[0]):
+                    return "SPass"
+                raise Unsupported("the converter parameter is rebound")
+            if isinstance(t, ast.Attribute) and isinstance(t.value, ast.Name) and t.value.id in self.vars and t.attr in ATTR:
+                return f"(SRecSet {self.var(t.value.id)} {ATTR[t.attr]} {self.exp(s.value)})"
             if isinstance(t, ast.Name):
                 e = self.exp(s.value)
                 return f"(SAssign {self.var(t.id, create=True)} {e})"
@@ -388,15 +427,17 @@ class FnTranslator:
 
 def gen_frag(src: Path, out: list[str]) -> dict[str, str]:
     """Appends the definitions to `out`; returns {section name: reason} for the functions that could not be translated."""
-    tree = ast.parse((src / "curies" / "api.py").read_text())
-    bases = class_bases(tree)
+    trees = {m: ast.parse((src / "curies" / f"{m}.py").read_text()) for m in sorted(set(MODULE.values()))}
+    bases = {}
+    for t in trees.values():
+        bases.update(class_bases(t))
     failed: dict[str, str] = {}
     fns: dict[str, ast.FunctionDef] = {}
     sigs: dict[str, Signature] = {}
     for qual, short in zip(FUNCTIONS, SHORT):
         try:
-            fns[short] = find_function(tree, qual)
-            sigs[short] = Signature(fns[short], qual.startswith("Converter."))
+            fns[short] = find_function(trees[MODULE[short]], qual.rpartition(":")[2])
+            sigs[short] = Signature(fns[short], IS_METHOD[short])
         except Unsupported as e:
             failed[f"frag_{short}"] = f"unsupported construct: {e}"
     for i, short in enumerate(SHORT):
@@ -406,7 +447,7 @@ def gen_frag(src: Path, out: list[str]) -> dict[str, str]:
         if short in fns:
             try:
                 # a callee whose signature could not be read makes the caller untranslatable too
-                text = FnTranslator(fns[short], sigs, bases, qual.startswith("Converter.")).translate()
+                text = FnTranslator(fns[short], sigs, bases, IS_METHOD[short]).translate()
             except Unsupported as e:
                 failed[f"frag_{short}"] = f"unsupported construct: {e}"
             except KeyError as e:
